@@ -489,6 +489,8 @@ theorem delete_short_prefix_m (fuel : Nat) (sn K2 : List Nib) (h : Bytes) (c : W
                       td := (delete H hasDb s fuel c K2).td }
         | none =>
           match (delete H hasDb s fuel c K2).node with
+          | .nil => { node := .nil, change := (delete H hasDb s fuel c K2).change,
+                      td := (delete H hasDb s fuel c K2).td ++ [h] }
           | .short ck _ cc _ _ => { node := .short (sn.map nb ++ ck) h cc true tc,
                                     change := (delete H hasDb s fuel c K2).change, td := (delete H hasDb s fuel c K2).td }
           | n' => { node := .short (sn.map nb) h n' true tc, change := (delete H hasDb s fuel c K2).change,
@@ -591,7 +593,16 @@ theorem rep_delete_aux (hlen : ∀ x, (H x).length = 32) :
             rw [hw]
             cases h6 with
             | nil =>
-              exact ⟨rfl, rfl, by simp, ⟨by simp, trivial⟩, _, rfl, Rep.short _ _ _ true tc _ Rep.nil (by simp), h7⟩
+              -- the child of a uniform short node is a value (then `K2 = []`) or a branch (never deleted to nothing)
+              exfalso
+              cases tc' with
+              | none => simp [PT.isVB] at hvb
+              | short _ _ => simp [PT.isVB] at hvb
+              | value vv vw =>
+                simp only [Uniform] at huc
+                have : K2.length ≠ 0 := by simpa using hK
+                omega
+              | branch bch => exact PT.delete_branch_ne bch K2 h5
             | empty => exact absurd rfl h3
             | ref t0 hn0 hst0 => simp [isRef] at h2
             | value vh vv vw vd hcl0 =>
